@@ -46,6 +46,16 @@ Step(x, m, e) ==
                     /\ e.rep.txt \notin {"invalid password", "Client sent AUTH, but no password is set"} THEN
               [x EXCEPT !.viol = @ \cup {<<"C17", e.c, i, "locally-answered-request-refused">>}]
             ELSE x
+    \* The proxy closes the connection (its answer to bytes that are not RESP): the request in front of those bytes, if
+    \* it is one the proxy answers itself - PING, AUTH, or a request it refuses - has been answered by then.
+    [] e.ev = "pclose" ->
+         LET snt == Sent(m, e.c)
+             i == Len(Got(m, e.c)) + 1
+             id == <<e.c, i>>
+         IN IF /\ i <= Len(snt) /\ snt[i].k # "bad" /\ \E q \in DOMAIN snt : q > i /\ snt[q].k = "bad"
+               /\ id \in DOMAIN x.exp /\ (x.exp[id] # {} \/ x.name[id] \in LocalNames)
+            THEN [x EXCEPT !.viol = @ \cup {<<"C17", e.c, i, "request-in-front-of-invalid-bytes-not-answered">>}]
+            ELSE x
     [] OTHER -> x
 
 Report(old, new, e) == \A v \in new \ old : PrintT(<<"VIOL", e.tid, v[1], v[2], v[3], v[4]>>)
